@@ -13,13 +13,14 @@ from . import common, tlc, hidc_api
 
 PROP = 'C04'
 
-# (MaxLen, MaxSize, Look).  Cost is ~100-200 us of TLC evaluation per case (one core), ~15 us of python.
-#   (6,3): 588 152 cases   (7,3): 5.5 M cases   (8,1): 1.3 M cases   [(8,3) would be 52 M cases: not run]
+# (MaxLen, MaxSize, Look).  Measured (16 workers, busy machine): (6,3) 73 519 states / 588 152 cases, TLC ~25 s;
+#   (7,3) 692 131 states / 5.5 M cases, TLC ~80 s;  (8,2) 1 294 704 states / 7.8 M cases, TLC ~125 s;
+#   [(8,3) would be 6.6 M states / 52 M cases, ~25 min: not run - length 8 is covered over sizes 0..2]
 # Look = 1: the states are all histories shorter than MaxLen, so MeaningInv (the declarative meaning of a guard)
-# is model-checked on every proper prefix of every case.
+# is model-checked on every proper prefix of every case (Look > 1 trades that for fewer states).
 TIERS = {
     'quick': [(6, 3, 1)],
-    'thorough': [(7, 3, 1), (8, 1, 1)],
+    'thorough': [(7, 3, 1), (8, 2, 1)],
 }
 OPS_TEXT = {0: 'add(0)', 1: 'add(1)', 2: 'add(2)', 3: 'add(3)', 4: 'update(0)', 5: 'update(1)', 6: 'update(2)',
             7: 'update(3)', 8: 'push_level()', 9: 'pop_level()'}
